@@ -439,15 +439,19 @@ static void convert_pp_number(Token *tok) {
       !memchr(tok->loc, 'p', end - tok->loc) && !memchr(tok->loc, 'P', end - tok->loc))
     error_tok(tok, "hexadecimal floating constants require an exponent");
 
+  // A float or double constant is converted from its spelling directly:
+  // narrowing the long double result would round a second time.
   Type *ty;
   if (*end == 'f' || *end == 'F') {
     ty = ty_float;
+    val = strtof(tok->loc, NULL);
     end++;
   } else if (*end == 'l' || *end == 'L') {
     ty = ty_ldouble;
     end++;
   } else {
     ty = ty_double;
+    val = strtod(tok->loc, NULL);
   }
 
   if (tok->loc + tok->len != end)
